@@ -2,6 +2,7 @@ package main
 
 import (
 	"fmt"
+	"go/token"
 
 	"golang.org/x/tools/go/ssa"
 )
@@ -165,6 +166,28 @@ func runC02(r *Report) {
 				pos = closeCall.Pos()
 			}
 			r.Ob("R-C02-3", pos, ok, "Bridge.Close closes "+fld+" (so a blocked read returns) before cancelling the context", "Bridge.Close", "closes:"+fld)
+			// ... on every call: no return of Close is reachable without passing the `fld != nil`
+			// test that leads to the close (an early `already closed` return would leave an end that
+			// was attached after the first Close open for ever)
+			isGuard := func(in ssa.Instruction) bool {
+				bo, isB := in.(*ssa.BinOp)
+				if !isB || (bo.Op != token.NEQ && bo.Op != token.EQL) {
+					return false
+				}
+				u, isU := stripValue(bo.X).(*ssa.UnOp)
+				if !isU || u.Op != token.MUL {
+					return false
+				}
+				_, f, _, isF := FieldOf(u.X)
+				return isF && f == fld
+			}
+			every := closeCall != nil
+			for _, ret := range Returns(cl) {
+				if ReachesWithout(cl, ret, isGuard) {
+					every = false
+				}
+			}
+			r.Ob("R-C02-3", pos, every, "every call of Bridge.Close examines "+fld+" and closes it when set (no early return before it: ends attached after a first Close must still see closure)", "Bridge.Close", "closes-on-every-call:"+fld)
 		}
 	}
 	if lc := r.need("R-C02-3", sessPkg, "SessionManager.runBridgeLifecycle"); lc != nil {
